@@ -207,6 +207,12 @@ const (
 // passed for the parking block of a select without default. Returns whether
 // some visitor returned Found, and the block path to it.
 func (g *Graph) Search(start Point, inclusive bool, visit func(pt Point, n ast.Node) Action) (bool, []Point) {
+	return g.SearchB(start, inclusive, visit, nil)
+}
+
+// SearchB is Search with a hook called when a path enters a new block (not
+// for the start block): Prune stops the path there, Found ends the search.
+func (g *Graph) SearchB(start Point, inclusive bool, visit func(pt Point, n ast.Node) Action, enter func(b *xcfg.Block) Action) (bool, []Point) {
 	type item struct {
 		pt   Point
 		from int // index into trail
@@ -245,6 +251,14 @@ func (g *Graph) Search(start Point, inclusive bool, visit func(pt Point, n ast.N
 		trail = append(trail, trailEnt{it.pt, it.from})
 		me := len(trail) - 1
 		pruned := false
+		if enter != nil && it.from >= 0 {
+			switch enter(b) {
+			case Found:
+				return true, witness(me, Point{b, 0})
+			case Prune:
+				continue
+			}
+		}
 		if b.Kind == xcfg.KindSelectBlocked {
 			switch visit(Point{b, 0}, nil) {
 			case Found:
@@ -328,19 +342,14 @@ type EscapeKind string
 // accepted, each with the line of the node where it left.
 func (g *Graph) RegionPaths(entry Point, r Region, accept func(n ast.Node) bool) [][]Point {
 	var bad [][]Point
-	// Repeated searches: find an escaping path, record, and continue with the
-	// escape point marked so that distinct escapes are all reported.
 	reported := map[ast.Node]bool{}
 	reportedBlk := map[*xcfg.Block]bool{}
 	for iter := 0; iter < 32; iter++ {
-		found, w := g.Search(entry, true, func(pt Point, n ast.Node) Action {
+		found, w := g.SearchB(entry, true, func(pt Point, n ast.Node) Action {
 			if n == nil {
 				return Prune // parked forever: not an escape
 			}
 			if !r.Contains(n) {
-				if _, isRet := n.(*ast.ReturnStmt); isRet && n.Pos() >= r.End && len(pt.B.Nodes) == 1 {
-					// synthetic or trailing return right after the region
-				}
 				if reported[n] || reportedBlk[pt.B] {
 					return Prune
 				}
@@ -351,6 +360,17 @@ func (g *Graph) RegionPaths(entry Point, r Region, accept func(n ast.Node) bool)
 			}
 			if _, ok := n.(*ast.ReturnStmt); ok {
 				if reported[n] {
+					return Prune
+				}
+				return Found
+			}
+			return Continue
+		}, func(b *xcfg.Block) Action {
+			if b.Kind == xcfg.KindSelectBlocked {
+				return Continue
+			}
+			if len(b.Nodes) == 0 && !g.blockInRegion(b, r) {
+				if reportedBlk[b] {
 					return Prune
 				}
 				return Found
@@ -368,6 +388,22 @@ func (g *Graph) RegionPaths(entry Point, r Region, accept func(n ast.Node) bool)
 		bad = append(bad, w)
 	}
 	return bad
+}
+
+// WithinRegion is a block hook that prunes paths leaving region r.
+func (g *Graph) WithinRegion(r Region) func(b *xcfg.Block) Action {
+	return func(b *xcfg.Block) Action {
+		if b.Kind == xcfg.KindSelectBlocked {
+			return Continue
+		}
+		if len(b.Nodes) == 0 && !g.blockInRegion(b, r) {
+			return Prune
+		}
+		if len(b.Nodes) > 0 && !r.Contains(b.Nodes[0]) {
+			return Prune
+		}
+		return Continue
+	}
 }
 
 // Lines renders a witness path as the distinct source lines of its block
